@@ -209,9 +209,20 @@ def gen_calls(rng, v):
                     if which != "sep":
                         # no separator argument: the text is kept as it is (documented for the sanitiser: separator none);
                         # what the statement still fixes is the length limit
-                        def jn(t, ml=ml, text=text):
+                        def jn(t, ml=ml, text=text, which=which, lower2=lower2, kz2=kz2):
                             if ml is not None and len(t) > ml:
                                 return "sanitize(max_length=%d) returned %d characters: %r" % (ml, len(t), t)
+                            # whatever else "no separator" means, the one argument that was given has to be honoured
+                            if which == "lower":
+                                if lower2 and any("A" <= ch <= "Z" for ch in t):
+                                    return "sanitize(lowercase=true) returned %r: upper-case letters left" % t
+                                if not lower2 and [ch for ch in t if ch.isascii() and ch.isalpha()] != [ch for ch in text if ch.isascii() and ch.isalpha()]:
+                                    return "sanitize(lowercase=false) returned %r for %r: the letters changed" % (t, text)
+                            if which == "kz" and text.isascii() and text.isdigit():
+                                if kz2 and t != text:
+                                    return "sanitize(keep_zeros=true) returned %r for the digits %r" % (t, text)
+                                if not kz2 and len(t) > 1 and t[0] == "0":
+                                    return "sanitize(keep_zeros=false) returned %r: leading zero kept" % t
                             return None
                         calls.append(("sanitize(value=%s, %s)" % (name, args), jn, None))
                         continue
@@ -355,8 +366,11 @@ def work_binary(bins, seed, n):
                         if rs["exit"] != 0 or rs["out"].rstrip("\n") != want_:
                             bad.append(("template-semver-differs", "[binary] --output-format semver prints %r but --output-template %r gives %r (exit %s: %s)" % (
                                 direct["semver"], t_, rs["out"].rstrip("\n"), rs["exit"], rs["err"].strip()[:100]), dict(kind="bin", ron=text)))
-                for var in ((fmt,) if fmt == "semver" else (fmt, "pep440_obj.base_part")):
-                    rt = core.run_zerv(bins, ["version", "--source", "stdin", "--output-template", "{{ %s }}" % var], stdin=text)
+                forms = (("{{ semver }}",) if fmt == "semver" else
+                         ("{{ pep440 }}", "{{ pep440_obj.base_part }}", "{% set v = pep440 %}{{ v }}", "{% for p in pep440_obj.base_part | split(pat=\".\") %}[{{ p }}]{% endfor %}",
+                          "{% if major %}{{ pep440 }}{% endif %}", "{{ pep440 | upper }}"))
+                for var in forms:
+                    rt = core.run_zerv(bins, ["version", "--source", "stdin", "--output-template", var], stdin=text)
                     k += 1
                     if rt["exit"] == 0:
                         bad.append(("template-%s-differs" % fmt, "[binary] --output-format %s refuses this object (%s) but the template variable {{ %s }} prints %r" % (
@@ -376,8 +390,9 @@ def work_binary(bins, seed, n):
         for sig, why in judge_fields(vals, names, v, direct):
             bad.append((sig, "[binary] " + why, case))
         # the variables on their own, without the delimiters the field template puts around them
-        for var, want in (("semver", direct["semver"]), ("pep440", direct["pep440"]), ("v{{ semver }}|{{ pep440 }}", None)):
-            t3 = var if "{{" in var else "{{ %s }}" % var
+        for var, want in (("semver", direct["semver"]), ("pep440", direct["pep440"]), ("v{{ semver }}|{{ pep440 }}", None),
+                          ("{% set v = semver %}{% set w = pep440 %}v{{ v }}|{{ w }}", None), ("{% if major is defined %}v{{ semver }}{% endif %}|{% for x in [pep440] %}{{ x }}{% endfor %}", None)):
+            t3 = var if ("{{" in var or "{%" in var) else "{{ %s }}" % var
             r3 = core.run_zerv(bins, ["version", "--source", "stdin", "--output-template", t3], stdin=text)
             k += 1
             want3 = want if want is not None else "v%s|%s" % (direct["semver"], direct["pep440"])
